@@ -15,7 +15,7 @@ import (
 
 func init() {
 	register("C13",
-		"KA-1: every potentially unbounded wait that the send goroutine can reach (all blocking selects in sendPacketsForever and its gbn callees) has a case on pongTicker.Ticks() that ends the loop with errKeepaliveTimeout, or is bounded by a timer - whatever the loop is doing (idle, sending, full window) pong expiry is observed. KA-2: on every ping-tick leg pong expiry is polled first, pongTicker.Reset+Resume and pingTicker.Reset happen on every path through the leg, the main loop's leg then sends a packet with IsPing set; pongTicker.Resume is called nowhere else; GetPingTime/GetPongTime map 0 (keepalive off) to MaxInt64 and start arms only the ping ticker. KA-3: in the receive loop every path from a successful Deserialize to the next iteration passes pingTicker.Reset and the pongTicker.IsActive test whose true leg pauses the pong ticker (a responding peer is never timed out). KA-6: every state-changing call on the ping, pong and resend timers sits in the function the logic assigns it to (ping: Resume in start, Reset in the two loops, Stop in Close; pong: Reset+Resume in the send loop, Pause in the receive loop, Stop in Close; resend: Reset in the two loops, Stop in Close). KA-5: both mailbox constructors enable gbn.WithKeepalivePing with positive durations, hand the stored options to the gbn constructor, and Refresh carries them over. KA-4: the error returned on pong expiry ends sendPacketsForever, whose wrapper closes the connection unconditionally. TICK-1/2/3 (the ticker the above relies on): Resume/Pause store 1/0 atomically and unconditionally, IsActive is load == 1 and nothing else writes the flag (a reset keeps it); the ticker goroutine forwards a clock tick to Force exactly under IsActive() in a select with the skip and quit alternatives, Ticks() returns Force; a reset stops the old clock, ends and waits for the old goroutine, installs NewTicker(newInterval) and a new quit channel, remembers the interval and starts one new goroutine on every path; Reset passes the stored interval, ResetWithInterval its argument, the constructor's clock and stored interval agree. KA-2 also: in the send goroutine the ping timer is restarted only inside the arming sequence of a ping leg (never by outbound traffic). KA-5 also: WithKeepalivePing is an element of the argument list of the single gbn.WithTimeoutOptions call of each constructor (that option replaces the configured list). KA-2 also: a ping tick arms the pong timer only when it is not already running for an unanswered ping (a running timer is never restarted; fix ccab75b). KA-3 also: pings are consumed by the receive loop and never handed to Recv. KA-5 also: WithKeepalivePing stores ping into pingTime and pong into pongTime unconditionally and unmodified (the closure does not reassign the captured parameters). The obligations of C06 (what the receive loop answers, and when) are imported: a resent ping is answered by a NACK. Not decided: the time bound itself; the residual race between Pause and a tick that already passed the IsActive test.",
+		"KA-1: every potentially unbounded wait that the send goroutine can reach (all blocking selects in sendPacketsForever and its gbn callees) has a case on pongTicker.Ticks() that ends the loop with errKeepaliveTimeout, or is bounded by a timer - whatever the loop is doing (idle, sending, full window) pong expiry is observed. KA-2: on every ping-tick leg pong expiry is polled first, pongTicker.Reset+Resume and pingTicker.Reset happen on every path through the leg, the main loop's leg then sends a packet with IsPing set; pongTicker.Resume is called nowhere else; GetPingTime/GetPongTime map 0 (keepalive off) to MaxInt64 and start arms only the ping ticker. KA-3: in the receive loop every path from a successful Deserialize to the next iteration passes pingTicker.Reset and the pongTicker.IsActive test whose true leg pauses the pong ticker (a responding peer is never timed out). KA-6: every state-changing call on the ping, pong and resend timers sits in the function the logic assigns it to (ping: Resume in start, Reset in the two loops, Stop in Close; pong: Reset+Resume in the send loop, Pause in the receive loop, Stop in Close; resend: Reset in the two loops, Stop in Close). KA-5: both mailbox constructors enable gbn.WithKeepalivePing with positive durations, hand the stored options to the gbn constructor, and Refresh carries them over. KA-4: the error returned on pong expiry ends sendPacketsForever, whose wrapper closes the connection unconditionally. TICK-1/2/3 (the ticker the above relies on): Resume/Pause store 1/0 atomically and unconditionally, IsActive is load == 1 and nothing else writes the flag (a reset keeps it); the ticker goroutine forwards a clock tick to Force exactly under IsActive() in a select with the skip and quit alternatives, Ticks() returns Force; a reset stops the old clock, ends and waits for the old goroutine, installs NewTicker(newInterval) and a new quit channel, remembers the interval and starts one new goroutine on every path; Reset passes the stored interval, ResetWithInterval its argument, the constructor's clock and stored interval agree. KA-2 also: in the send goroutine the ping timer is restarted only inside the arming sequence of a ping leg (never by outbound traffic). KA-5 also: WithKeepalivePing is an element of the argument list of the single gbn.WithTimeoutOptions call of each constructor (that option replaces the configured list). KA-2 also: a ping tick arms the pong timer only when it is not already running for an unanswered ping (a running timer is never restarted; fix ccab75b). KA-3 also: pings are consumed by the receive loop and never handed to Recv. KA-5 also: WithKeepalivePing stores ping into pingTime and pong into pongTime unconditionally and unmodified (the closure does not reassign the captured parameters). The obligations of C06 (what the receive loop answers, and when) are imported: a resent ping is answered by a NACK. KA-1 also: a wait that has the pong-expiry case also has a case on the ping tick (the pong timer is armed on a ping tick only). Not decided: the time bound itself; the residual race between Pause and a tick that already passed the IsActive test.",
 		[]string{"time.Ticker delivers ticks at its interval"},
 		runC13)
 }
